@@ -337,12 +337,16 @@ func (e *specEnv) lookup(name string) (sval, bool) {
 func (x *Exec) loadOld(e *specEnv, a Val, t types.Type) Val {
 	if a.K == vScalar {
 		so := x.sortOf(t)
+		key := cellKey(t)
+		if a.Key != "" {
+			key = a.Key
+		}
 		if isSlice(t) {
 			is := x.intSort()
-			g := func(suf string, s2 Sort) T { return Select(e.heapOf(cellKey(t)+suf, SArray(SInt, s2)), a.T, s2) }
+			g := func(suf string, s2 Sort) T { return Select(e.heapOf(key+suf, SArray(SInt, s2)), a.T, s2) }
 			return Val{K: vSlice, Arr: g("#a", SInt), Off: g("#o", is), Len: g("#l", is), Cap: g("#c", is), Typ: t}
 		}
-		return scalar(Select(e.heapOf(cellKey(t), SArray(SInt, so)), a.T, so))
+		return scalar(Select(e.heapOf(key, SArray(SInt, so)), a.T, so))
 	}
 	return x.load(e.s, a, t, true)
 }
@@ -999,6 +1003,22 @@ func (e *specEnv) evalCall(n *ast.CallExpr) (sval, error) {
 			so = SPos
 		}
 		return sval{v: scalar(Select(e.heapOf("ghost:"+name, SArray(SInt, so)), ref, so))}, nil
+	case "captured": // captured(v): the variable a closure captured, even when a local shadows its name
+		id, ok := n.Args[0].(*ast.Ident)
+		if !ok || e.frame == nil {
+			return sval{}, fmt.Errorf("captured() needs a variable name inside a closure")
+		}
+		for i, fv := range e.frame.fn.FreeVars {
+			if fv.Name() == id.Name {
+				t := fv.Type().(*types.Pointer).Elem()
+				cell := e.frame.env[e.frame.fn.FreeVars[i]]
+				if e.old {
+					return sval{v: x.loadOld(e, cell, t), typ: t}, nil
+				}
+				return sval{v: x.load(e.s, cell, t, false), typ: t}, nil
+			}
+		}
+		return sval{}, fmt.Errorf("captured(%s): no such free variable", id.Name)
 	case "tagof":
 		v, err := arg(0)
 		if err != nil {
